@@ -54,6 +54,19 @@ impl BitWriter {
         out
     }
 
+    /// Same as `bytes`, byte by byte with shifts (no memcpy): a concrete writer then yields an
+    /// array the symbolic executor constant-propagates.
+    pub fn bytes_plain(&self) -> [u8; 32] {
+        let mut out = [0u8; 32];
+        let mut i = 0;
+        while i < 16 {
+            out[i] = (self.lo >> (8 * i)) as u8;
+            out[16 + i] = (self.hi >> (8 * i)) as u8;
+            i += 1;
+        }
+        out
+    }
+
     pub fn byte_len(&self) -> usize {
         (self.nbits + 7) / 8
     }
